@@ -423,6 +423,54 @@ def rule_real(ctx, rep):
     r.note("%d f64 formatting sites" % n)
 
 
+def rule_raw(ctx, rep):
+    """Reader/writer agreement for string contents.  The lexer/grammar keep the characters between the quotes exactly as written
+    (no `$` decoding: `CharacterStringLiteral.value` and string initialisers are the raw characters), so the renderer must write them
+    exactly as stored.  A writer that inserts anything while it walks the characters (an escape `$`, a doubled quote) adds that text
+    again on every round trip."""
+    r = rep.rule("R-C10-raw", "string contents are written as stored: inside every loop of the renderer over `char` items nothing but the item itself "
+                              "is written (no constant character or text), matching the grammar, which stores the characters between the quotes raw",
+                 floor=1, floor_what="character loops / character collections in the renderer")
+    from rules.c04_progress import natural_loops
+    n = 0
+    for b in sorted(ctx.prog.bodies.values(), key=lambda x: x.id):
+        if b.f["crate"] != "ironplc_plc2plc" or "::test" in norm(b.id):
+            continue
+        fn = re.sub(r"^<ironplc_plc2plc::renderer::LibraryRenderer as .*>::", "", norm(b.id)).replace("ironplc_plc2plc::", "")
+        # `chars.iter().collect::<String>()`: identity by construction
+        for c in b.calls():
+            if (c.callee or c.u or "").endswith("Iterator::collect") and "char" in (c.ga or "") and "String" in (c.ga or ""):
+                n += 1
+                r.ok("%s|collect::<String>() of the stored characters" % fn, loc_str(b.f, c.loc))
+        loops = natural_loops(b)
+        k = 0
+        for h, body in sorted(loops.items()):
+            hc = b.call_at(h) if b.term(h)[0] == "call" else None
+            if not (hc and (hc.u or "") == "core::iter::traits::iterator::Iterator::next" and re.search(r"Iter<'[^>]*, char>|Chars<|IntoIter<char", hc.ga or "")):
+                continue
+            k += 1
+            n += 1
+            inst = "%s|char loop #%d" % (fn, k)
+            bad = []
+            for x in sorted(body):
+                if b.term(x)[0] != "call" or x == h:
+                    continue
+                c = b.call_at(x)
+                nm = (c.callee or c.u or "").split("::")[-1]
+                if nm in ("push", "push_str", "write", "write_ws", "write_char", "write_str", "insert", "insert_str", "extend") and len(c.args) >= 2:
+                    a = c.args[1]
+                    k0 = b.const_of(a)
+                    if k0 is not None and len(k0) > 3 and isinstance(k0[3], dict) and ("int" in k0[3] or "str" in k0[3]):
+                        bad.append((c, k0[2]))
+            if bad:
+                for c, txt in bad:
+                    r.finding(inst + "|inserts %s" % txt, loc_str(b.f, c.loc), "the constant %s is written while walking the characters of a string: the grammar stores the "
+                              "characters raw, so this text is part of the contents after re-parsing and is added again by the next rendering" % txt)
+            else:
+                r.ok(inst, loc_str(b.f, hc.loc), "writes only the character itself")
+    r.note("%d character loops / collections" % n)
+
+
 def run(ctx, rep):
     rep.not_decided += ["parse(render(L)) == L itself (value-level)", "numeric formatting other than the fraction point of reals (durations truncated to whole ms)",
                         "separator/bracket completeness per production (design rule R-C10-sep not implemented: needs per-production token multisets)",
@@ -434,3 +482,4 @@ def run(ctx, rep):
     rule_paren(ctx, rep)
     rule_uncond(ctx, rep)
     rule_real(ctx, rep)
+    rule_raw(ctx, rep)
